@@ -1,7 +1,7 @@
 (** C05 — packet protection round-trips, matches RFC 9001, rejects tampering.
     Only statements live here; each is closed by [exact] of a lemma proved elsewhere. *)
 From Coq Require Import List ZArith Sorted.
-From V Require Import Gen.Params PktProt.PktNum PktProt.PktNumProofs PktProt.KeyPhase PktProt.KeyPhaseProofs PktProt.KeyPhaseRun PktProt.KeyPhaseWindow PktProt.KeyPhaseExamples PktProt.Protect PktProt.ProtectProofs PktProt.ProtectExamples.
+From V Require Import Gen.Params PktProt.PktNum PktProt.PktNumProofs PktProt.KeyPhase PktProt.KeyPhaseProofs PktProt.KeyDerive PktProt.KeyDeriveProofs PktProt.KeyPhaseRun PktProt.KeyPhaseWindow PktProt.KeyPhaseExamples PktProt.Protect PktProt.ProtectProofs PktProt.ProtectExamples.
 Import ListNotations.
 Open Scope Z_scope.
 
@@ -173,3 +173,19 @@ Example C05_protect_nonvacuous :
   ex_packet <> mk_header (short_first 2 1) [1; 2; 3] 2 65537 ++ toy_seal 65537 1 [] [9; 8; 7].
 Proof. exact (conj toy_open_seal (conj toy_seal_length (conj toy_integrity protect_example))). Qed.
 Print Assumptions C05_protect_nonvacuous.
+
+(** (b), key updates: the secret of the next key generation is literally
+    HKDF-Expand-Label(secret, "quic ku" | "quicv2 ku", "", Hash.len) and key / iv / header
+    protection key are HKDF-Expand-Label(secret, "quic key|iv|hp" | "quicv2 key|iv|hp") — the
+    labels of RFC 9001 (5.1, 5.4, 6.1) for v1 and of RFC 9369 (3.3.2) for v2 — for every
+    HKDF-Expand-Label function.  The model's labels are the ones found in the code
+    (Gen/Params.v), so a label that differs from the RFC's breaks this proof. *)
+Theorem C05_key_update_derivation_rfc :
+  forall (expand_label : list Z -> String.string -> Z -> list Z) v2 hashLen keyLen ts,
+    let '(lk, li, lh, lu) := rfc_labels v2 in
+    next_secret expand_label v2 hashLen ts = expand_label ts lu hashLen /\
+    aead_key expand_label v2 keyLen ts = expand_label ts lk keyLen /\
+    aead_iv expand_label v2 ts = expand_label ts li 12 /\
+    hp_key expand_label v2 keyLen ts = expand_label ts lh keyLen.
+Proof. exact derivation_rfc. Qed.
+Print Assumptions C05_key_update_derivation_rfc.
